@@ -1331,6 +1331,21 @@ func c05R2OCI(c *Ctx) {
 				ig = call
 			}
 		}
+		// the path is carried from the step that ingests to the step that publishes in a variable of the function that
+		// owns the first-error step table: the value assigned by the earlier step; the rename then lies behind the
+		// success of the ingest call when that step returns nil only behind it
+		stepIngest := false
+		if ig == nil {
+			if ex, ok := strip(c09StepCellValue(sv)).(*ssa.Extract); ok && ex.Index == 0 {
+				if call, ok := ex.Tuple.(*ssa.Call); ok && StaticCallee(call) != nil && inModule(StaticCallee(call)) {
+					for _, te := range c05TreeEnvs(root, 3) {
+						if te.Fn == call.Parent() && te.Parent == sat.Parent {
+							ig, sat, stepIngest = call, te, true
+						}
+					}
+				}
+			}
+		}
 		if ig == nil {
 			// inlined shape: the renamed path is fp.Name() of a file written and verified at that level
 			copies := c05CopyCalls(sat.Fn)
@@ -1355,6 +1370,9 @@ func c05R2OCI(c *Ctx) {
 		}
 		c.OK(R, tn+"|rename-source-is-ingest-result", rn.Pos(), "the renamed file is the path returned by the ingest helper "+FnName(StaticCallee(ig)))
 		ok := dominated(e, rn.(ssa.Instruction), sat, newCut().Edges(c05NilEdgesOf(ig)...))
+		if stepIngest {
+			ok = c09BehindStepSuccess(c.P, rn.(ssa.Instruction), func(call ssa.CallInstruction) bool { return call == ssa.CallInstruction(ig) }, 2)
+		}
 		c.Check(R, tn+"|rename-dominated-by-successful-ingest", rn.Pos(), ok,
 			ifelse(ok, "every path to the rename takes the err==nil edge of the ingest helper", "the rename into blobs/ is reachable although ingest failed (unverified or partial content becomes visible)"))
 		// arguments of ingest are Push's own descriptor and reader
@@ -2429,6 +2447,21 @@ type c05Src struct {
 // unexported helper, the arguments at every static call site in the package
 // (transitively, depth <= 3).
 func c05ArgSources(pkgFns []*ssa.Function, f *ssa.Function, v ssa.Value, depth int) []c05Src {
+	// a variable captured from the enclosing function (a step closure handing Push's `target` to a helper): the value
+	// assigned there — once, in the enclosing function itself, or by an earlier step of the same first-error table
+	if depth < 3 {
+		w := c09StepCellValue(v)
+		if w == nil {
+			if r := c09Resolved(v); r != nil && r != strip(v) {
+				w = r
+			}
+		}
+		if w != nil {
+			if g := c09ParentOf(w); g != nil && g != f {
+				return c05ArgSources(pkgFns, g, w, depth+1)
+			}
+		}
+	}
 	p, isParam := strip(v).(*ssa.Parameter)
 	if !isParam || depth >= 3 || p.Parent() != f {
 		return []c05Src{{v, f}}
